@@ -38,6 +38,7 @@ struct Event {
   std::vector<int> choices;  // in-build schedule prefix (rest = default 0)
   int cancelAt = -1;         // cancel the build when the step counter reaches this value
   int failWriteAt = -1;      // the N-th database write (setRuleResult) of this build reports an error
+  int failReadAt = -1;       // the N-th database read (lookupRuleResult) of this build reports an error
   std::string str() const {
     std::string r(1, kind);
     if (kind != 'r' && kind != 'v') { r += ' '; r += key; }
@@ -45,6 +46,7 @@ struct Event {
     if (kind == 'b') {
       if (cancelAt >= 0) r += " @" + std::to_string(cancelAt);
       if (failWriteAt >= 0) r += " !" + std::to_string(failWriteAt);
+      if (failReadAt >= 0) r += " ?" + std::to_string(failReadAt);
       if (!choices.empty()) {
         r += " [";
         for (size_t i = 0; i < choices.size(); ++i) r += (i ? " " : "") + std::to_string(choices[i]);
@@ -77,6 +79,7 @@ inline bool parseHistory(const std::string& s, History& h) {
       while (is >> t) {
         if (t[0] == '@') e.cancelAt = atoi(t.c_str() + 1);
         else if (t[0] == '!') e.failWriteAt = atoi(t.c_str() + 1);
+        else if (t[0] == '?') e.failReadAt = atoi(t.c_str() + 1);
         else {
           // choices: "[a" "b" "c]"
           std::string num;
@@ -140,6 +143,7 @@ public:
   std::function<void(const DBRecord&)> onSet, onBeforeSet;
   std::function<void(uint64_t)> onIteration;
   std::function<bool(const DBRecord&)> shouldFail;  // injected write error (nothing reaches the database)
+  std::function<bool(const std::string&)> shouldFailRead;  // injected read error (the stored result is not delivered)
   explicit RecordingDB(std::unique_ptr<BuildDB> i) : inner(std::move(i)) {}
   void attachDelegate(BuildDBDelegate* d) override { del = d; inner->attachDelegate(d); }
   Epoch getCurrentEpoch(bool* ok, std::string* err) override { return inner->getCurrentEpoch(ok, err); }
@@ -149,6 +153,7 @@ public:
     return r;
   }
   bool lookupRuleResult(KeyID id, const KeyType& key, Result* out, std::string* err) override {
+    if (shouldFailRead && shouldFailRead(key.str())) { if (err) *err = "injected database read error"; return false; }
     return inner->lookupRuleResult(id, key, out, err);
   }
   bool setRuleResult(KeyID id, const Rule& rule, const Result& res, std::string* err) override {
@@ -264,6 +269,7 @@ struct BuildObs {
   std::string reasons;   // "k:R[:input]" list
   int steps = 0;
   int writes = 0;        // database writes attempted by this build
+  int reads = 0;         // database reads (rule result lookups) of this build
   std::vector<std::pair<int, int>> trace;
   std::string orderFreeSummary() const {
     std::string ex = executed;
@@ -330,6 +336,9 @@ public:
   int stepNo = 0, cancelAt = -1;
   int writeNo = 0, failWriteAt = -1;
   bool writeFailed = false;
+  int readNo = 0, failReadAt = -1;
+  bool readFailed = false;
+  StubQueue* curQueue = nullptr;   // the execution queue of the running build (owned by the engine)
   bool cancelIssued = false;
   std::map<char, std::pair<bool, Sh>> diskBeforeComplete;  // persisted view of a rule before its completion in this build
   BuildObs* obs = nullptr;
@@ -408,6 +417,13 @@ public:
       auto rec = new RecordingDB(std::move(inner));
       rdb = rec;
       rec->onSet = [this](const DBRecord& r) { onSetRuleResult(r); };
+      rec->shouldFailRead = [this](const std::string& key) {
+        if (!inBuild) return false;
+        if (++readNo != failReadAt) return false;
+        ev("db-read-error " + std::string(1, specKey(key)));
+        readFailed = true;
+        return true;
+      };
       rec->shouldFail = [this](const DBRecord& r) {
         // The rewrite that withdraws a record while the engine abandons a build is not an injection point of its
         // own: an error there on top of the interruption that caused it is a double fault (outside the space).
@@ -437,7 +453,8 @@ public:
 
   // ---- BuildEngineDelegate --------------------------------------------------
   std::unique_ptr<basic::ExecutionQueue> createExecutionQueue() override {
-    return std::unique_ptr<basic::ExecutionQueue>(new StubQueue(qdel));
+    curQueue = new StubQueue(qdel);
+    return std::unique_ptr<basic::ExecutionQueue>(curQueue);
   }
   std::unique_ptr<Rule> lookupRule(const KeyType& key) override;
   void determinedRuleNeedsToRun(Rule* rule, Rule::RunReason reason, Rule* input) override;
@@ -473,7 +490,12 @@ public:
     ++stepNo;
     if (stepNo == cancelAt && !cancelIssued && !cfg.capi) {
       cancelIssued = true;
+      int before = curQueue ? curQueue->cancels : -1;
       engine->cancelBuild();
+      // whatever else has gone wrong in this build already: a client cancellation has to reach the execution queue,
+      // otherwise a job that only ends when it is cancelled keeps the build call waiting for ever
+      if (curQueue && curQueue->cancels == before)
+        violate("cancel-not-propagated-to-queue", "cancelBuild() returned without calling cancelAllJobs() on the build's execution queue");
     }
   }
 
@@ -1034,6 +1056,7 @@ inline BuildObs Session::build(const Event& ev) {
   cancelAt = ev.cancelAt;
   cancelIssued = false;
   writeNo = 0; failWriteAt = ev.failWriteAt; writeFailed = false; diskBeforeComplete.clear();
+  readNo = 0; failReadAt = ev.failReadAt; readFailed = false;
   created.clear(); validFalse.clear(); doneThisBuild.clear(); completedThisBuild.clear(); statusComplete.clear();
   running.clear(); pending.clear(); refCache.clear(); issuedDeps.clear(); completedValue.clear(); waitEdges.clear(); discoveredBy.clear(); withdrawnThisBuild.clear();
   cycleReported = false; cycleReports = 0; violationThisBuild = false;
@@ -1070,12 +1093,14 @@ inline BuildObs Session::build(const Event& ev) {
     dead = true;
   }
   inBuild = false;
+  curQueue = nullptr;   // destroyed by the engine when build() returned
   engineThreadState().inBuild = false;
   verif::pointHook = savedHook;
   verif::pointHookContext = savedCtx;
   chooser = nullptr;
   o.steps = stepNo;
   o.writes = writeNo;
+  o.reads = readNo;
   o.trace = ch.trace;
   o.value = value;
   o.cancelled = cancelIssued;
@@ -1129,7 +1154,7 @@ inline BuildObs Session::build(const Event& ev) {
     violate("missed-cycle", std::string("build of ") + ev.key + " succeeded with '" + value + "' although it requires a dependency cycle");
   // -- C07
   if (cfg.checkC07) {
-    if (!o.cancelled && !engineCancelled && !writeFailed) {
+    if (!o.cancelled && !engineCancelled && !writeFailed && !readFailed) {
       auto& rv = refOf(ev.key);
       if (rv.first && !o.cycle && !cfg.resolveForce && !o.success)
         violate("missed-cycle", std::string("build of ") + ev.key + " failed without reporting the dependency cycle");
